@@ -22,7 +22,7 @@ from . import common as C
 ASSUME = [
     "the meaning of the source program is Machine.tla (validated against the real executor by C04); gates denote Pauli rotations as in Gates.tla (validated against the published matrices by C07)",
     "virtual qubit 0 is the electron, 1..3 are carbons; programs follow the SDK's patterns: qubit registers are written right before each gate, loops are 'set; beq exit; body; add; jmp', conditionals branch over their body, a mov is bracketed by init of its target and qfree of its source",
-    "registers the source program never mentions (the transpiler's scratch register, C15 of the appended no-op) are not compared",
+    "registers the source program never mentions (the transpiler's scratch register, C15 of the appended no-op) are not compared; with two subroutines a Q register that only the first one mentions is not compared either (each subroutine is transpiled on its own)",
     "gate sequences between two non-unitary events are compared as unitaries on 4 qubits up to global phase; non-commuting residual rotations would be reported as inconclusive (exit 2), not as a violation",
 ]
 
@@ -383,7 +383,11 @@ def _run(item):
     progs = compile_ast(c["ast"])
     clss = {k.mnemonic: k for k in isa.classes("vanilla")}
     shapes = {e["mn"]: e["shape"] for e in isa.extract_table()["vanilla"]}
-    regset = sorted({o for prog in progs for ins in prog for o, kind in zip(ins["ops"], _kinds(shapes[ins["mn"]], len(ins["ops"]))) if kind == "r"})
+    def mentioned(prog):
+        return {o for ins in prog for o, kind in zip(ins["ops"], _kinds(shapes[ins["mn"]], len(ins["ops"]))) if kind == "r"}
+    # compared at the end: every register some subroutine mentions, except Q registers that only EARLIER subroutines
+    # mention (a subroutine is transpiled on its own: a Q register it does not mention may serve as its scratch register)
+    regset = sorted({r_ for prog in progs for r_ in mentioned(prog) if not (32 <= r_ < 48)} | {r_ for r_ in mentioned(progs[-1]) if 32 <= r_ < 48})
     addrs = [0, 1]
     row = dict(id=i, ast=c["ast"], debug=c["debug"], progs=progs, meas=c["meas"], umsize=4, regset=regset, addrs=addrs,
                real=dict(status="", err="", regs=[], shregs=[], arrs=[], sharrs=[], um=[], qlog=[], nvlen=0, nvtext=[]))
